@@ -303,7 +303,9 @@ def finish(report: Report) -> int:
         "wall_s": round(time.time() - report.t0, 2),
         "violations": len(report.violations),
     }
-    (EVIDENCE / f"{report.prop}.json").write_text(json.dumps(ev, indent=1) + "\n")
+    edir = EVIDENCE / "extra" if report.prop.startswith("X") else EVIDENCE    # X..: beyond the listed properties
+    edir.mkdir(parents=True, exist_ok=True)
+    (edir / f"{report.prop}.json").write_text(json.dumps(ev, indent=1) + "\n")
     print(f"{report.prop} tier={report.tier} seed={report.seed}: states={report.states} "
           f"transitions={report.transitions} traces={report.traces} "
           f"violations={len(report.violations)} known={sum(report.known_hits.values())} "
